@@ -808,7 +808,7 @@ def preaggregate_time(array, times, aggregator, length):
     new_array = np.nan * np.zeros(array.shape, np.float32)
     for t in range(array.shape[0]):
         start = times[t] - length * 3600
-        I = range(np.where(times > start)[0][0], t+1)
+        I = np.where((times > start) & (times <= times[t]))[0]
         new_array[t, :, :] = aggregator(array[I, :, :], axis=0)
     return new_array
 
@@ -826,7 +826,7 @@ def preaggregate_leadtime(array, leadtimes, aggregator, length):
     new_array = np.nan * np.zeros(array.shape, np.float32)
     for t in range(array.shape[1]):
         start = leadtimes[t] - length
-        I = range(np.where(leadtimes > start)[0][0], t+1)
+        I = np.where((leadtimes > start) & (leadtimes <= leadtimes[t]))[0]
         new_array[:, t, :] = aggregator(array[:, I, :], axis=1)
     return new_array
 
